@@ -35,6 +35,7 @@ mod layouts;
 mod mapper_mon;
 mod vclock;
 mod loop_mon;
+mod systemd_mon;
 
 use std::collections::HashMap;
 
@@ -58,6 +59,7 @@ fn main() {
   let code = match args[1].as_str() {
     "mapper" => mapper_mon::run(&opts),
     "loop" => loop_mon::run(&opts),
+    "systemd" => systemd_mon::run(&opts),
     "replay" => common::replay(&opts),
     "merge" => common::merge_distinct(&args[2..].to_vec()),
     _ => usage()
